@@ -5,6 +5,8 @@ import json, subprocess
 
 PIPE_NOTE = 'Trusted: as C20 plus Go channel semantics as axioms (FIFO, no loss or duplication, each value to exactly one receiver, close observed after buffered values; what a goroutine has received is a prefix of what will ever be delivered); the contracts are goroutine-local: every receive result and select choice is a demonic choice, so the proved trace facts hold for every schedule and capacity, but the step from sent(out) to what the consumer observes is the channel axiom. Liveness proper (closes/exits/never blocks) is not decided: checked instead are close-on-every-exit-path, releasable blocking operations (cancel arm, default, or receive from an input), slot tokens for bare sends, and cancellation being observed in every iteration of an unbounded loop; the termination argument from these conditions is not machine-checked. User functions are deterministic uninterpreted functions of the element (a failure depends on the value, not on the position).'
 
+REFL = 'Trusted: as C20 plus reflect reports the true declaration and layout (reflect.Type is modelled as a finite algebraic datatype: struct with field list, pointer, slice, other; recursive types through embedded pointers are outside it); StructTag.Get and strings.Split are uninterpreted; '
+
 CHECKS = {
  "C20": dict(
    text="Proof: each of Pipe, Pipe3..Pipe20 and the closure it returns is verified against the composition term f_N(..f_1(a)) and the ghost call trace [f_1 a, f_2 r_1, ...] written positionally from the property; the closure must not write captured state. All obligations discharged by SMT for all arguments, no bound.",
